@@ -197,7 +197,7 @@ def dispatch(item):
 def run(ctx):
     wp.warm_up()
     quick = ctx.tier == "quick"
-    seeds = [ctx.sub(("opt", i)) for i in range(24 if quick else 400)]
+    seeds = [ctx.sub(("opt", i)) for i in range(24 if quick else 800)]
     hs = [1, 4242] if quick else [1, 7, 4242, 99999]
     # hash-seed children run in their own interpreters; they are launched from the (single-threaded) pool workers, never
     # from threads of this process: forking the pool while other threads run is a deadlock hazard
